@@ -37,7 +37,7 @@ theorem snapshot_sound_map (as : List Action) (s : State) (hnr : NoReset as)
     s.numYielded = (yields s.obs).length ∧
     stateDict s = (idealAt c (stepOf c s.numYielded), s.numYielded - stepOf c s.numYielded) := by
   have h := fresh_allM c hv hm hio as s hnr hr hd
-  have hstep : s.snap.step = stepOf c s.numYielded := allM_step_eq c s h
+  have hstep : s.snap.step = stepOf c s.numYielded := allM_step_eq c s h he
   refine ⟨h.sn.ny, ?_⟩
   unfold stateDict
   rw [allM_sound c hv hm he s h, hstep]
@@ -72,7 +72,7 @@ theorem restore_ideal_map (m : Nat) (hle : m ≤ c.batches.length) (hs : SnapSte
   · intro hst
     have := hfin hst
     rw [hy, List.take_of_length_le (by rw [List.length_drop]; omega)]
-  · have hstep : s'.snap.step = stepOf c s'.numYielded := allM_step_eq c (lift m (preObs c m) s') h
+  · have hstep : s'.snap.step = stepOf c s'.numYielded := allM_step_eq c (lift m (preObs c m) s') h he
     have hsound := allM_sound c hv hm he _ h
     have e1 : (lift m (preObs c m) s').snap = s'.snap := rfl
     rw [e1] at hsound
@@ -104,7 +104,7 @@ theorem resume_exact_map (as₁ : List Action) (s₁ : State) (hn₁ : NoReset a
   simp only at hr₂ ⊢
   obtain ⟨hp, hst, _, _, _⟩ := restore_ideal_map c hv hm hio he (stepOf c s₁.numYielded) (by omega)
     (stepOf_snapStep c _) as₂ s₂ hn₂ hr₂ hd₂
-  have hpre := yields_prefix_ref_map c hv hm hio as₁ s₁ hn₁ hr₁ hd₁ (h1.sn.noas (Or.inr he))
+  have hpre := yields_prefix_ref_map c hv hm hio as₁ s₁ hn₁ hr₁ hd₁ h1.sn.noas
   have hdd : ((oks (refStream c)).drop (stepOf c s₁.numYielded)).drop (s₁.numYielded - stepOf c s₁.numYielded) =
       (oks (refStream c)).drop (yields s₁.obs).length := by
     rw [List.drop_drop, ← hny]; congr 1; omega
@@ -146,6 +146,46 @@ theorem chain_map (as₁ : List Action) (s₁ : State) (hn₁ : NoReset as₁)
   rw [hsd₂, hsd₃, this]
 
 end Map
+
+/-- **`snapshot_denotes_map`** — what a `state_dict()` denotes in runs WITH failing fetches (every interval,
+every set of failing fetches, every schedule; since repo fix f1014eb).  Let `m = lastDue c rcvd_idx` be the
+largest `m ≤ rcvd_idx` such that task `m − 1` carries a main snapshot (`m % interval = 0`) and did not fail
+(`0`: the initial snapshot).  Then the snapshot is the one taken when task `m − 1` was yielded: sampler
+position `m`, `snapshot_step = okCount c m` (the yields up to and including that task),
+`last_yielded_worker_id` its owner, worker states `wsAfter c m` (the deltas of the first `m` tasks, applied in
+task order), and `steps_since_snapshot = okCount c rcvd_idx − okCount c m`, the yields since.  Resuming
+restarts the sampler at task `m` and replays those yields.  Without failing fetches this is
+`snapshot_sound_map` (`lastDue = stepOf`, `okCount = id`, `wsAfter = wsIdeal`).  NOTE: with failing fetches
+`wsAfter c m` is NOT the ideal worker state: a failing fetch reports no state delta (`stOf_err`), so the state
+of its worker stays at its last reported one until that worker's next flagged successful fetch (see the
+example below); this is so at every interval, also before the fix. -/
+theorem snapshot_denotes_map (c : Cfg) (hv : c.Valid) (hm : c.iterable = false) (hio : c.inOrder = true)
+    (as : List Action) (s : State) (hnr : NoReset as) (hr : run c (init c) as = some s) (hd : ¬ died s) :
+    stateDict s =
+      (⟨okCount c (lastDue c s.rcvdIdx),
+        if lastDue c s.rcvdIdx = 0 then c.W - 1 else (lastDue c s.rcvdIdx - 1) % c.W,
+        lastDue c s.rcvdIdx, wsAfter c (lastDue c s.rcvdIdx)⟩,
+       okCount c s.rcvdIdx - okCount c (lastDue c s.rcvdIdx)) := by
+  have h := fresh_allM c hv hm hio as s hnr hr hd
+  unfold stateDict
+  have h1 := h.sn.main
+  have h2 := h.sn.step
+  have h3 := h.sn.lastW
+  have h4 := h.sw
+  have h5 := h.sn.cnt
+  rcases hs : s.snap with ⟨st, lw, mn, ws⟩
+  rw [hs] at h1 h2 h3 h4
+  simp only at h1 h2 h3 h4
+  subst h1
+  rw [h2, h3, h4, h5]
+
+/-- Non-vacuity / regression (`TDV.MP.c10a`: interval 2, task 2 fails): after `10, 11, error, 13` four tasks
+are consumed, the snapshot in force is the one of task 3 (`m = 4`): `snapshot_step = 3`, sampler position 4;
+worker 0 has made two fetches (tasks 0 and 2) but is recorded with one — the failing fetch sent no delta. -/
+example : lastDue c10a 4 = 4 ∧ okCount c10a 4 = 3 ∧ wsAfter c10a 4 = [⟨1, false⟩, ⟨2, false⟩] ∧
+    (run c10a (init c10a) (c10aRun.take 12)).map stateDict =
+      some (⟨3, 1, 4, [⟨1, false⟩, ⟨2, false⟩]⟩, 0) := by
+  refine ⟨by decide, by decide, by decide, by decide⟩
 
 /-! ### Non-vacuity (map-style): interval 3, two workers, 7 batches (4 for worker 0, 3 for worker 1),
 checkpoint after `k = 4` batches — between the snapshots at 3 and 6 — in a saving run where worker 1 answers
@@ -309,7 +349,7 @@ theorem snapshot_sound_iter_partial (as : List Action) (s : State) (hnr : NoRese
     Obs.assertion ∉ s.obs ∧ s.numYielded = (yields s.obs).length ∧
     stateDict s = (idealAt c 0, (yields s.obs).length) := by
   obtain ⟨e1, _, e3⟩ := run_frozen c as (init c) s h0 hnr (init_notResuming c) hr
-  obtain ⟨hny, _, _⟩ := snapshot_fields c hv hio as s hnr hr hd
+  obtain ⟨hny, _⟩ := snapshot_fields c hv hio as s hnr hr hd
   refine ⟨fun h => ?_, hny, ?_⟩
   · have := e3 h
     rw [(init_core c).2] at this
